@@ -104,6 +104,10 @@ class Executor:
 
     def _run(self, text, fresh=False, timeout=None):
         self.ncases = getattr(self, "ncases", 0) + 1
+        if timeout is None and getattr(self, "hangs", 0) > 0:
+            # this executor object has already seen a hang: while the failing case is being shrunk, further hanging
+            # candidates are cut short (the confirmation runs use fresh Executor objects and the full timeout again)
+            timeout = 10.0 if self.hangs <= 2 else 4.0
         if self.ncases > int(os.environ.get("VERIF_RESPAWN_EVERY", "3000")):
             fresh = True
         if fresh or self.p is None or self.p.poll() is not None:
@@ -133,6 +137,7 @@ class Executor:
             left = deadline - time.time()
             if left <= 0:
                 lines.append("HANG")
+                self.hangs = getattr(self, "hangs", 0) + 1
                 self.close()
                 return lines
             wl = [wfd] if off < len(data) else []
@@ -240,7 +245,8 @@ def _worker(args):
     ctx = Ctx(paths)
     stats = Stats()
     sfn = _sample_fn(mod)
-    state = {"last_fail": None, "fail_hash": None, "post": 0}
+    state = {"last_fail": None, "fail_hash": None, "post": 0, "t_fail": None}
+    shrink_seconds = float(os.environ.get("VERIF_SHRINK_SECONDS", "90" if tier == "quick" else "300"))
     shrink_budget = int(os.environ.get("VERIF_SHRINK_EVALS", "400" if tier == "quick" else "1500"))
 
     class Fail(Exception):
@@ -257,13 +263,15 @@ def _worker(args):
             # failing case is still executed (Hypothesis replays it at the end), every other
             # candidate is treated as "not failing" so the shrinker stops quickly.
             state["post"] += 1
-            if state["post"] > shrink_budget and case_hash(case) != state["fail_hash"]:
+            if (state["post"] > shrink_budget or time.time() - state["t_fail"] > shrink_seconds) and case_hash(case) != state["fail_hash"]:
                 return
         res = mod.run_case(ctx, case)
         stats.add(case, res, sfn)
         if res.fail:
             state["last_fail"] = (case, res.fail)
             state["fail_hash"] = case_hash(case)
+            if state["t_fail"] is None:
+                state["t_fail"] = time.time()
             raise Fail(res.fail)
 
     out = {"widx": widx, "fail": None, "error": None}
@@ -337,11 +345,15 @@ def load_case(path):
     return d["case"], d
 
 
-def confirm(mod, paths, case, times=3):
-    """Replay a failing case in fresh executors; return number of failures."""
+def confirm(mod, paths, case, times=3, need=None):
+    """Replay a failing case in fresh executors; return number of failures (stops as soon as `need` is reached
+    or can no longer be reached)."""
     n = 0
     msg = None
-    for _ in range(times):
+    need = need or times
+    for k in range(times):
+        if n >= need or n + (times - k) < need:
+            break
         ctx = Ctx(paths)
         try:
             res = mod.run_case(ctx, case)
@@ -552,7 +564,11 @@ def main(modname, argv):
                     continue
                 seen_fail.add(h)
                 need = getattr(mod, "CONFIRM", (3, 3))
-                n, m2 = confirm(mod, paths, case, need[1])
+                if len(violations) >= 2:
+                    # two confirmed violations are enough to report; further failing cases are only listed
+                    unstable.append((save_replay(mod, case, msg, "unconfirmed"), "not re-run (two violations already confirmed): " + msg))
+                    continue
+                n, m2 = confirm(mod, paths, case, need[1], need[0])
                 if n >= need[0]:
                     violations.append((save_replay(mod, case, msg), msg))
                 else:
